@@ -22,8 +22,9 @@ NPROC = int(os.environ.get("VERIF_NPROC", "16"))
 
 
 class SubCheck:
-    def __init__(self, name, judge, shards, strategy=None, cases=None, doc=""):
+    def __init__(self, name, judge, shards, strategy=None, cases=None, machine=None, doc=""):
         self.name = name
+        self.machine = machine  # shard, report(case, verdict) -> RuleBasedStateMachine class (histories)
         self.judge = judge  # case -> Verdict
         self.shards = shards  # tier -> list of dict(id=..., n=..., **params)
         self.strategy = strategy  # shard -> hypothesis strategy
@@ -106,13 +107,52 @@ def run_shard(args):
                     res["known"].append((v.key, known[(prop, v.key)]))
                     return
                 f = {"case": jsonable(case), "msg": v.msg, "key": v.key}
-                if sub.strategy is not None:
+                if sub.strategy is not None or sub.machine is not None:
                     res["failures"] = [f]  # the last failing example is the (shrunk) final one
                 else:
                     res["failures"].append(f)
                 raise _Fail(v.msg)
 
-        if sub.strategy is not None:
+        if sub.machine is not None:
+            from hypothesis import HealthCheck, Phase, seed as hseed, settings
+            from hypothesis.stateful import run_state_machine_as_test
+
+            phases = [Phase.explicit, Phase.generate]
+            if tier == "thorough" or os.environ.get("VERIF_SHRINK") == "1":
+                phases.append(Phase.shrink)
+
+            def report(case, verdict):
+                """Called by the machine at the end of every generated history (or at the failing step)."""
+                res["evaluations"] += 1
+                h = case_hash(case)
+                if verdict.nontrivial:
+                    res["nontrivial"].add(h)
+                for c in verdict.classes:
+                    res["classes"][c] += 1
+                if verdict.nontrivial and len(res["samples"]) < 2:
+                    res["samples"].setdefault(h, jsonable(case))
+                if not verdict.ok:
+                    res["failures"] = [{"case": jsonable(case), "msg": verdict.msg, "key": verdict.key}]
+                    raise _Fail(verdict.msg)
+
+            Machine = sub.machine(shard, report)
+            try:
+                run_state_machine_as_test(
+                    hseed(seed)(Machine),
+                    settings=settings(
+                        max_examples=int(shard.get("n", 10)) + 1,
+                        stateful_step_count=int(shard.get("steps", 20)),
+                        database=None,
+                        deadline=None,
+                        derandomize=False,
+                        report_multiple_bugs=False,
+                        phases=phases,
+                        suppress_health_check=[HealthCheck.too_slow, HealthCheck.data_too_large],
+                    ),
+                )
+            except _Fail:
+                pass
+        elif sub.strategy is not None:
             from hypothesis import HealthCheck, Phase, given, seed as hseed, settings
 
             phases = [Phase.explicit, Phase.generate]
